@@ -901,6 +901,18 @@ def _check_model_and_spec(ctx, rec, o, reply, bad, known_ids, count, is_base=Fal
     if model['status'] == 'skipped':
         return
     diffs = ptcheck.diff_model(impl, model, None, ('samples', 'windows', 'durations'))
+    if diffs and rec['case'].get('fault') == 'missing' and impl['status'] == 'error':
+        # A declared parameter was removed from the assignment (same rule as ptcheck.assess): the implementation may
+        # legitimately need MORE than the model reads (it checks every declared parameter up front, e.g. one that only a
+        # dropped measurement window uses), and the flavour of a missing-parameter error is not an observable of C05.
+        if model['status'] in ('ok', 'empty') and impl['error'] == 'parameter_missing':
+            diffs = [d for d in diffs if not d.startswith('status:')]
+            if count:
+                ctx.count('missing:implementation-needs-more-than-model')
+        elif model['status'] == 'error' and impl['error'] != model['error']:
+            diffs = [d for d in diffs if not d.startswith('error class:')]
+            if count:
+                ctx.count('missing:different-error-flavour')
     if diffs and obs['status'] == 'ok' and model['status'] == 'ok' and obs.get('pf04'):
         # PF-04 repaired in the code (last piece right-closed); a model without the repair has NaN there
         diffs = _diffs_outside(impl, model, obs['pf04'])
